@@ -1,5 +1,6 @@
 --------------------------- MODULE MC_Gen_Imports ---------------------------
 EXTENDS Gen_Imports
+MCOutSmall == {<<"pkg", "client">>, <<"app", "app">>}
 MCOutQuick == {<<"client">>, <<"pkg", "client">>, <<"app", "app">>}
 MCOutFull  == {<<"client">>, <<"pkg", "client">>, <<"a", "b", "client">>, <<"app", "app">>, <<"core", "api">>}
 =============================================================================
